@@ -6,7 +6,15 @@ export GOFLAGS=-mod=mod GOPROXY=off GOSUMDB=off GOTOOLCHAIN=local
 python3 tools/gen_main.py
 mkdir -p harness/bin evidence replays .build
 if [ -d harness/extract ]; then (cd harness/extract && go1.26 build -o ../bin/extract .); harness/bin/extract -repo /repo -out lean/RqModel/Gen; fi
-(cd lean && lake build)
+# build the driver and every module a registered check needs (work-in-progress modules without a
+# checks/<ID>.json entry are not allowed to break setup)
+mods=$(python3 -c "
+import glob,json
+ms=set()
+for p in glob.glob('checks/C*.json'):
+    c=json.load(open(p)); ms.update(c.get('lean_modules',['RqModel.Props.'+c['id']]))
+print(' '.join(sorted(ms)))")
+(cd lean && lake build rqdrv $mods)
 # warm the Go build cache (cgo SQLite) so the first check is not the slow one
 [ -n "$VERIF_SETUP_LIGHT" ] || (cd /repo && go1.26 build -tags verif ./... && go1.26 test -tags verif -vet=off -count=1 -run '^$' ./... >/dev/null 2>&1 || true)
 echo setup done
